@@ -45,6 +45,14 @@ Definition res_class (r : res) : Z :=
 
 Inductive case :=
 | CBuild (version : Z) (comp tracing : bool) (stream : Z) (r : request) (out : outcome)
+(* connection level: frames captured under Conn.executeQuery / executeBatch / UseKeyspace / prepareStatement;
+   the stream id is the one the connection allocated (read off the captured frame) *)
+| CConnQuery (version : Z) (comp tracing : bool) (ks : bytes) (q : query_in) (stmt : bytes)
+             (prepared : option (bytes * list qvalue * bool)) (stream : Z) (out : bytes)
+| CConnBatch (version : Z) (comp tracing : bool) (typ : Z) (entries : list (bytes * option (bytes * list qvalue)))
+             (cl serial : Z) (dts : bool) (dtsv : Z) (payload : payload_t) (stream : Z) (out : option bytes)
+| CConnUse (version : Z) (comp : bool) (session_cons : Z) (ks : bytes) (stream : Z) (out : bytes)
+| CConnPrepare (version : Z) (comp tracing : bool) (ks stmt : bytes) (stream : Z) (out : bytes)
 | CBatchGuard (version : Z) (refused : bool)       (* Conn.executeBatch refused the batch with ErrUnsupported *)
 | CTooBig (buflen : Z) (refused : bool).           (* finish returned ErrFrameTooBig for a buffer of this size *)
 
@@ -85,23 +93,37 @@ Definition align (r : request) (m : message) : request :=
   | _ => r
   end.
 
+(* the model builds exactly these bytes, given the clock value and map order read off them *)
+Definition builds (v : Z) (comp tracing : bool) (stream : Z) (r : request) (b : bytes) : bool :=
+  let compf := if comp then Some test_comp else None in
+  let '(r', now) :=
+    match decode_request test_decomp b with
+    | Some (_, m) => (align r m, decoded_now m)
+    | None => (r, 0)
+    end in
+  match build_frame compf v tracing now stream r' with
+  | Ok b' => zlist_eqb b' b
+  | _ => false
+  end.
+
 Definition check (c : case) : bool :=
   match c with
   | CBuild v comp tracing stream r out =>
-      let compf := if comp then Some test_comp else None in
       match out with
-      | OBytes b =>
-          let '(r', now) :=
-            match decode_request test_decomp b with
-            | Some (_, m) => (align r m, decoded_now m)
-            | None => (r, 0)
-            end in
-          match build_frame compf v tracing now stream r' with
-          | Ok b' => zlist_eqb b' b
-          | _ => false
-          end
-      | OFail cl => (res_class (build_frame compf v tracing 0 stream r) =? cl) && negb (cl =? 0)
+      | OBytes b => builds v comp tracing stream r b
+      | OFail cl =>
+          (res_class (build_frame (if comp then Some test_comp else None) v tracing 0 stream r) =? cl) && negb (cl =? 0)
       end
+  | CConnQuery v comp tracing ks q stmt prepared stream out =>
+      builds v comp tracing stream (conn_execute_query v ks q stmt prepared) out
+  | CConnBatch v comp tracing typ entries cl serial dts dtsv payload stream out =>
+      match conn_execute_batch v typ entries cl serial dts dtsv payload, out with
+      | Some r, Some b => builds v comp tracing stream r b
+      | None, None => true
+      | _, _ => false
+      end
+  | CConnUse v comp scons ks stream out => builds v comp false stream (conn_use_keyspace scons ks) out
+  | CConnPrepare v comp tracing ks stmt stream out => builds v comp tracing stream (conn_prepare v ks stmt) out
   | CBatchGuard v refused => Bool.eqb (conn_batch_refused v) refused
   | CTooBig n refused => Bool.eqb (too_big n) refused
   end.
